@@ -924,3 +924,58 @@ def rf10j(run):
     if n < 1:
         raise F.AnalysisBroken('machinize_call: no arm inserts both the move and the extension after prev_call_insn')
     return n
+
+
+# ---------------------------------------------------------------------------------------------
+# RF65: the frame allocated by the prologue keeps the stack pointer 16-byte aligned
+# ---------------------------------------------------------------------------------------------
+
+def rf65(run):
+    from lib import residues as RS
+    rule = 'RF65'
+    run.rule(rule, 'x86-64 target_make_prolog_epilog: by residue dataflow modulo 16 over the function, the block of stack slots and saved '
+                   'registers subtracted from sp is a multiple of 16 on every path and the service area is 0 or 8 modulo 16 (8 = the return '
+                   'address already on the stack): after the prologue sp is 16-byte aligned in every function, which the alloca lowering '
+                   '(sub sp, round16(size)) and SSE spills rely on - leaf functions included')
+    gen = run.tu('gen')
+    f = gen.func('target_make_prolog_epilog')
+    run.functions_analysed.add(('gen', f.name))
+    g = gen.global_var('reg_save_area_size')
+    consts = {'reg_save_area_size': F.const_value(g['init'])}
+    rs = RS.Residues(f, 16, consts)
+    n = 0
+    subs = []
+    for x in f.walk():
+        if x['k'] == 'CallExpr' and x.get('callee') == 'MIR_new_insn':
+            a = F.call_args(x)
+            if len(a) >= 5 and F.src(F.strip(a[1])) == 'MIR_SUB' and F.src(F.strip(a[2])) == 'sp_reg_op' and F.src(F.strip(a[3])) == 'sp_reg_op':
+                amt = F.strip(a[4])
+                if amt['k'] == 'CallExpr' and amt.get('callee') == 'MIR_new_int_op':
+                    subs.append((x, F.strip(F.call_args(amt)[1])))
+    if not subs:
+        raise F.AnalysisBroken('target_make_prolog_epilog: the frame allocation `sub sp, sp, N` was not found')
+    for x, amt in subs:
+        terms = []
+        def flat(e):
+            e = F.strip(e)
+            if e['k'] == 'BinaryOperator' and e['op'] == '+':
+                flat(e['c'][0]); flat(e['c'][1])
+            else:
+                terms.append(e)
+        flat(amt)
+        for t in terms:
+            r = rs.at(x, t)
+            name = F.src(t)
+            n += 1
+            if 'service' in name:
+                ok = r <= frozenset([0, 8])
+                want = '0 or 8'
+            else:
+                ok = r == frozenset([0])
+                want = '0'
+            run.ob(rule, (x['l'], name), ok, {'site': '%s:%d' % (f.relfile(), x['l']), 'term': name, 'residues mod 16': sorted(r), 'required': want})
+            if not ok:
+                run.violation(rule, f, 'frame term %s' % name, 'the frame allocation `sub sp, sp, %s` subtracts %s whose value modulo 16 can be %s '
+                              '(required: %s): on such a path sp is not 16-byte aligned after the prologue, and memory obtained by alloca '
+                              '(sub sp, round16(size)) in that function is misaligned' % (F.src(amt)[:60], name, sorted(r), want), line=x['l'])
+    return n
